@@ -102,6 +102,7 @@ type outcome struct {
 	effects []string
 	dropped map[int]bool // labels of retransmissions of accepted requests (left out of the reference run)
 	joinClass bool       // the violation is an in-flight false retry answered with the original's reply
+	known     string     // occurrence of a defect reported once per run under a stable signature (search goes on)
 	refs map[int]bool    // request ids whose replies later ops take state IDs from
 	defs map[int]int     // label of an op -> id of the request it introduced
 }
@@ -501,7 +502,9 @@ func (r *run41) onReturn(c *call41) {
 			r.failMonitor("retransmission (call %d) of request %d returned before the original (call %d) finished", c.id, q.id, o.id)
 		} else if c.fresh && status != stBadSess {
 			same := bytes.Equal(c.bytes, o.bytes)
-			unc := !q.cache && bytes.Equal(c.bytes, uncachedBytes(o.res))
+			// a duplicate that arrived while the original was executing completes with the
+			// original's result; only a later retry may get the reduced uncached form
+			unc := !q.cache && !c.origInflight && bytes.Equal(c.bytes, uncachedBytes(o.res))
 			if !same && !unc {
 				r.failMonitor("retransmission (call %d) of request %d got a reply that differs from the original's (status %d vs %d)", c.id, q.id, status, uint32(o.res.Status))
 			}
